@@ -36,9 +36,51 @@ META = {
 def run(rep):
     from ..rules import walk as _W
     rep.run(_W.writer_sides_independent, "O16.1")
+    rep.run(coefficient_sources)
     rep.run(bipartite)
     rep.run(species_graph)
     rep.run(strings)
+
+
+# ------------------------------------------------------------------ O16.1 / O16.2: where the exported / imported coefficients come from
+def coefficient_sources(rep):
+    """(a) the coefficient written on an arc of a view is the coefficient of that species on THAT side of the reaction: a value that comes out of
+        the signed incidence matrix is a net quantity (a species on both sides of one reaction cancels or shrinks);
+    (b) a helper that remembers resolved coefficients must key them by everything it resolves them from (the side's own maps)."""
+    from ..rules import provenance as PV
+    from ..rules.memo import closure_memo_sites
+    n = 0
+    for q in ("hypergraph_to_bipartite", "hypergraph_to_species_graph"):
+        w = rep.repo.maybe_func(CV, q)
+        if w is None:
+            continue
+        d = local_defs(w.node)
+        vals = []
+        for st in walk_local(w.node):
+            if isinstance(st, ast.Assign) and len(st.targets) == 1 and isinstance(st.targets[0], ast.Subscript) and isinstance(st.targets[0].slice, ast.Constant) \
+                    and isinstance(st.targets[0].slice.value, str) and "stoich" in st.targets[0].slice.value:
+                vals.append((st, st.value))
+            if isinstance(st, ast.Call) and call_name(st) in ("add_edge", "add_node"):
+                vals += [(st, k.value) for k in st.keywords if k.arg and "stoich" in k.arg]
+            if isinstance(st, ast.Dict):
+                vals += [(st, v) for k, v in zip(st.keys, st.values) if isinstance(k, ast.Constant) and isinstance(k.value, str) and "stoich" in k.value]
+        for st, v in vals:
+            n += 1
+            net = [r for r in PV.all_roots(d, v) if isinstance(r, ast.Call) and call_name(r) in ("incidence_matrix", "stoichiometric_matrix", "build_S")]
+            if net:
+                rep.ob("O16.1", "SRC", w, False, net[0], "a coefficient written to the view is the species' coefficient on that side of the reaction (here it is taken from the signed "
+                       "incidence matrix: a species on both sides of one reaction is exported with its net coefficient, or not at all)", node=st)
+    rep.need("SRC", n, 2, "stoichiometry values written by the view writers")
+    hits = 0
+    for q in ("species_graph_to_hypergraph", "bipartite_to_hypergraph"):
+        r = rep.repo.maybe_func(CV, q)
+        if r is None:
+            continue
+        for node, why in closure_memo_sites(r):
+            hits += 1
+            rep.ob("O16.2", "R1", r, False, node, "coefficients resolved while reading a view are remembered per (reaction, species, side): " + why, node=node)
+    if not hits:
+        rep.ob("O16.2", "R1", f"{CV}:view readers", True, "no memoising helper with an incomplete key", "coefficients resolved while reading a view are not served from a memo keyed without the side")
 
 
 # ------------------------------------------------------------------ O16.1
